@@ -281,6 +281,15 @@ def check_call(h, name, args, kwargs):
     err = compare(r1, r2, what)
     if err:
         bad.append(err)
+    if not isinstance(r1, AnsiString) and not any(isinstance(x, AnsiString) for x in (r1 if isinstance(r1, (list, tuple)) else [])):
+        # a query left both receivers as they were: they must still render alike (a query that poisons a cache on
+        # the never-rendered AnsiString shows here)
+        try:
+            if model.renderings(v1) != model.renderings(v2) or v1.is_optimizable() != v2.is_optimizable():
+                bad.append(('twin-receiver-render', '%s: afterwards the AnsiString renders %r, the AnsiStr %r'
+                            % (what, v1.to_str(), v2.to_str())))
+        except Exception as ex:  # noqa
+            bad.append(('twin-receiver-render', '%s: rendering the receivers afterwards raised %s' % (what, ex)))
     if not model.unchanged(v2, snap2):
         bad.append(('twin-receiver-changed', '%s changed the AnsiStr receiver' % what))
     return bad, r2
